@@ -57,7 +57,9 @@ static inline size_t varintBP128MaxBytes(size_t count) {
     if (remainder > 0) {
         bytes += 2 + remainder * 8; /* header + count + data */
     }
-    return bytes;
+    /* The 64-bit forms put a tagged varint (element count, or the first
+     * value of the delta form) of up to 9 bytes in front of the blocks */
+    return bytes + 9;
 }
 
 /* Encode array of uint32_t values in BP128 format
